@@ -56,10 +56,16 @@ class ShimDBAPI:
         if self.recording:
             self.log.append((kind, sql, params))
         if self.translate:
+            try:
+                if kind == "execute":
+                    sql2, p2 = tok.to_qmark(sql, self.paramstyle, params)
+                else:
+                    seq = [tok.to_qmark(sql, self.paramstyle, p) for p in params]
+            except tok.MissingParam as e:
+                # what a real format / pyformat driver does with a placeholder / parameter mismatch
+                raise sqlite3.ProgrammingError("paramstyle shim: %s" % e)
             if kind == "execute":
-                sql2, p2 = tok.to_qmark(sql, self.paramstyle, params)
                 return target.execute(sql2, p2)
-            seq = [tok.to_qmark(sql, self.paramstyle, p) for p in params]
             if not seq:
                 return target.executemany(sql, [])
             return target.executemany(seq[0][0], [p for _, p in seq])
